@@ -1,6 +1,7 @@
 import TaskModel.Load.MergeInvariant
 import TaskModel.Load.SortLemmas
 import TaskModel.Load.VarsLemmas
+import TaskModel.Load.Siblings
 import TaskModel.Load.Sites
 import TaskModel.Gen.Load
 /-!
@@ -154,6 +155,63 @@ example : outcome (gTwice.mergeCanonical 0) = some ([[109, 58, 120], [110, 58, 1
 /-- … and the same one when vertices and edges are enumerated in another order -/
 example : outcome (Graph.mergeCanonical ⟨gSiblings.verts.reverse, gSiblings.edges.reverse⟩ 0)
     = outcome (gSiblings.mergeCanonical 0) := by decide
+
+/-! ## Arbitrary orders: what survives without the fix -/
+
+/-- **C09_partial.**  The includes of one parent (`cs`: included Taskfile and include
+statement, children already merged) taken in ANY order — any topological order of the
+siblings and any order of the include statements on the edges: if the variable names and
+the environment names defined by different children are pairwise disjoint, then either
+every order fails or every order succeeds, and all results are equivalent (`TfEquiv`):
+same global variables and environment as lookup functions (including the `Dir` stamped on
+them), same task table up to order (names, commands, dependencies, attributes, dir,
+internal, namespace, include vars; not the aliases added by the default-task shortcut and
+not the `IncludedTaskfileVars` snapshot, which record what was merged before). -/
+theorem C09_partial (p : Taskfile) (cs₁ cs₂ : List (Taskfile × Include)) (hp : cs₁.Perm cs₂)
+    (hd : cs₁.Pairwise Disj) (r₁ : Taskfile) (h : mergeAll p cs₁ = .ok r₁) :
+    ∃ r₂, mergeAll p cs₂ = .ok r₂ ∧ TfEquiv r₁ r₂ :=
+  mergeAll_perm hp hd p p r₁ (TfEquiv.refl p) h
+
+/-- … and failure is order-independent too -/
+theorem C09_partial_error (p : Taskfile) (cs₁ cs₂ : List (Taskfile × Include)) (hp : cs₁.Perm cs₂)
+    (hd : cs₁.Pairwise Disj) (e : Err) (h : mergeAll p cs₁ = .error e) : ∃ e', mergeAll p cs₂ = .error e' := by
+  cases h2 : mergeAll p cs₂ with
+  | error e' => exact ⟨e', rfl⟩
+  | ok r₂ =>
+    have hd₂ := (hp.pairwise_iff (fun {a b} (h : Disj a b) => h.symm)).mp hd
+    obtain ⟨r₁, hr₁, _⟩ := mergeAll_perm hp.symm hd₂ p p r₂ (TfEquiv.refl p) h2
+    rw [h] at hr₁; cases hr₁
+
+/-- `mergeAll` is what `Graph.merge` does to the children of the root of `gSiblings`:
+the order `[0, 1, 2]` merges file 2, then file 1 -/
+example : outcome (gSiblings.merge [0, 1, 2] canonicalEps)
+    = outcome (mergeAll (mkFile [] []) [(mkFile [(1, ⟨22, Dir.unset⟩)] [mkTask [121] 2], mkInc [98] 2),
+                                        (mkFile [(1, ⟨11, Dir.unset⟩)] [mkTask [120] 1], mkInc [97] 1)]) := by decide
+
+/-- non-vacuity: two siblings with different variable names satisfy the hypothesis, both
+orders succeed, the variable lookups agree and the task tables are permutations -/
+def sibA : Taskfile × Include := (mkFile [(1, ⟨11, Dir.unset⟩)] [mkTask [120] 1], mkInc [97] 1)
+def sibB : Taskfile × Include := (mkFile [(2, ⟨22, Dir.unset⟩)] [mkTask [121] 2], mkInc [98] 2)
+
+example : [sibA, sibB].Pairwise Disj := by
+  refine List.Pairwise.cons ?_ (List.Pairwise.cons (by simp) List.Pairwise.nil)
+  intro b hb
+  simp only [List.mem_singleton] at hb
+  subst hb
+  constructor <;> decide
+
+example : outcome (mergeAll (mkFile [] []) [sibA, sibB]) = some ([[97, 58, 120], [98, 58, 121]], [(1, 11), (2, 22)]) ∧
+    outcome (mergeAll (mkFile [] []) [sibB, sibA]) = some ([[98, 58, 121], [97, 58, 120]], [(2, 22), (1, 11)]) := by decide
+
+/-- The same statement for arbitrary include graphs and arbitrary topological orders.
+NOT proved: it needs the commutation of merges into different parents and the congruence
+of `TfEquiv` through further levels; `C09_partial` is its generating step (one parent,
+any permutation of its includes). -/
+def C09_partial_graph : Prop :=
+  ∀ (g : Graph) (σ₁ σ₂ : List Nat) (ε₁ ε₂ : Edge → List Include),
+    IsTopo g σ₁ → IsTopo g σ₂ → σ₁.head? = σ₂.head? → EpsPerm ε₁ → EpsPerm ε₂ →
+    g.verts.Pairwise (fun a b => (∀ k, k ∈ a.2.vars.keys → k ∉ b.2.vars.keys) ∧ (∀ k, k ∈ a.2.env.keys → k ∉ b.2.env.keys)) →
+    ∀ r₁, g.merge σ₁ ε₁ = .ok r₁ → ∃ r₂, g.merge σ₂ ε₂ = .ok r₂ ∧ TfEquiv r₁ r₂
 
 /-! ## Generated facts -/
 
